@@ -148,7 +148,10 @@ Eval(r, e) ==
                                    => MemoOK(<<cfg[r].algKey, "eval", e.comp, e.xid>>, e.ok))
   /\ PS(<<
         <<"P:C05", "eval.inbox", e.phase \notin ExemptPhases => e.inbox>>,
-        <<"P:C11", "eval.callerdata", e.changed = <<>>>>
+        <<"P:C11", "eval.callerdata", e.changed = <<>>>>,
+        \* a function that is undefined AT the starting point (a persistent failure there) is discovered by the initial
+        \* evaluation -- whose failure is reported by the dedicated error -- not later inside a trial
+        <<"P:C07", "start.fault.at.init", (pc[r] # "Idle" /\ cfg[r].startUndef /\ e.xid = cfg[r].start /\ ~e.ok) => pc[r] = "Init">>
      >>)
   /\ orc' = IF pc[r] # "Idle" /\ cfg[r].twin # "none" /\ e.xid # NoPt
             THEN Memo(<<cfg[r].algKey, "eval", e.comp, e.xid>>, e.ok) ELSE orc
@@ -229,8 +232,12 @@ ShouldDisplay(r, e) ==
   /\ UNCHANGED <<viol, cfg, algVars, nnot, post, clk, dlx, path, ptime, bad, inner, orc>>
 
 (* Solver._compute_step entry.                                              *)
+TrialQ(r) == <<cfg[r].algKey, "query", Len(hist[r])>>
 TrialBegin(r, e) ==
   /\ Cl("M", "TrialBegin.pc", pc[r] = "Begin")
+  \* twins ask the same k-th question (point, step size, penalty); recorded traces only: in the model the twin's questions are
+  \* functions of the shared answers by construction
+  /\ Cl(TwinTag(r), "twin.query", Mode = "mc" \/ cfg[r].twin = "none" \/ MemoOK(TrialQ(r), <<e.from, e.lambUsed, e.rhoUsed>>))
   /\ Cl("M", "rho.used.is.solver.rho", e.rhoUsed = rho[r])
   /\ Cl("M", "display.arg", e.disp = disp[r])
   /\ PS(<<
@@ -248,9 +255,10 @@ TrialBegin(r, e) ==
                                                    !.lambUsed = e.lambUsed, !.dt = e.dt]]
   /\ inner' = [inner EXCEPT ![r] = InnerInit]
   /\ pc' = [pc EXCEPT ![r] = "InTrial"]
+  /\ orc' = IF Mode = "mc" \/ cfg[r].twin = "none" THEN orc ELSE Memo(TrialQ(r), <<e.from, e.lambUsed, e.rhoUsed>>)
   /\ Step
   /\ UNCHANGED <<cfg, cur, lamb, rho, prho, filt, iter, nacc, pen, hist, status, err, result, ymax,
-                 nnot, post, disp, clk, dlx, path, ptime, bad, orc>>
+                 nnot, post, disp, clk, dlx, path, ptime, bad>>
 
 (* One call of newton_method(...).step(iterate).                            *)
 NewtonStep(r, e) ==
@@ -312,7 +320,7 @@ TrialEnd(r, e) ==
   /\ Cl("M", "TrialEnd.pc", pc[r] = "InTrial")
   /\ Cl("M", "kind.accepted", e.accepted <=> e.kind = "accept")
   /\ Cl("M", "fixed.always.accepts", cfg[r].ctl = "Fixed" => e.kind # "reject")
-  /\ Cl("M", "fault.fails", (inner[r].fault \/ inner[r].dl) => e.kind = "fail")
+  /\ Cl("M", "fault.fails", ((inner[r].fault /\ cfg[r].validate) \/ inner[r].dl) => e.kind = "fail")   \* without input validation a non-finite value is not noticed
   /\ Cl("M", "fail.needs.fault", e.kind = "fail" => (inner[r].fault \/ inner[r].dl))
   /\ Cl("M", "lamb.next", LambNextOK(r, t, e))
   /\ Cl("M", "inner.count", InnerCountOK(r, e))
@@ -353,6 +361,7 @@ Notify(r, e) ==
   /\ PS(<<
         <<"P:C15", "abort.at.lambmax", Lt(trial[r].lambNext, cfg[r].lambMax)>>,
         <<"P:C12", "notify.from", e.from = cur[r]>>,
+        <<"P:C12", "notify.own.solve.only", pc[r] \notin (Terminal \cup {"Idle"})>>,
         <<"P:C05", "notify.inbox", e.fromInbox /\ e.toInbox>>
      >>)
   /\ post' = [post EXCEPT ![r] = [@ EXCEPT !.n = TRUE]]
